@@ -18,7 +18,7 @@ MANIFEST = {
              'Equality "as numbers" beyond real-arithmetic identity (summation order) is out of scope.'),
 }
 EXPLANATION = 'Whole-step SVN: argument terms at the consist call, accumulator relations with the same dt, getter terms.'
-RULES = ['C11-1.handoff', 'C11-2.accum', 'C11-3.dt', 'C11-4.getters', 'C11-5.loco', 'C11-6.rollup', 'C11-7.init']
+RULES = ['C11-1.handoff', 'C11-2.accum', 'C11-3.dt', 'C11-4.getters', 'C11-5.loco', 'C11-6.rollup', 'C11-7.init', 'C11-8.dt', 'C11-9.accum']
 ASSUMPTIONS = ['identities over the reals']
 
 SIMS = ['SetSpeedTrainSim::solve_step', 'SpeedLimitTrainSim::solve_step']
@@ -35,6 +35,13 @@ def run(ctx):
     from .common import RuleProxy
     rollups(RuleProxy(ctx, {'C01-5.rollup': 'C11-6.rollup'}))
     initial_energies(ctx)
+    # every level integrates with the same step size: dt is handed down unchanged
+    from .common import value_passthrough
+    value_passthrough(ctx, 'C11-8.dt', 'dt', floor=25)
+    # each level's cumulative energy is the integral of that level's own power (clauses of C01-2, shared): otherwise the sum over
+    # locomotives drifts away from the consist's total although every instantaneous power agrees
+    from . import C01
+    C01.run(RuleProxy(ctx, {'C01-2.accum': 'C11-9.accum'}))
     eng = engine(ctx)
     n = 0
     for fid in SIMS:
